@@ -66,7 +66,9 @@ type PacketWriter interface {
 }
 
 // ReadPacket 根据规范从 r 中读取 rtp 包.
-// channelConfig 提供通道类型所在通道的配置信息
+// channelConfig 提供通道类型所在通道的配置信息.
+// 返回 (nil, err) 表示流已不可用（读错误、前缀错误）；返回 (非nil, err) 表示该包无法使用
+// （通道未知或 RTP 头无法解析），但已被完整读出，可以丢弃后继续读下一个包
 func ReadPacket(r *bufio.Reader, channelConfig []int) (*Packet, error) {
 	var err error
 
@@ -96,13 +98,15 @@ func ReadPacket(r *bufio.Reader, channelConfig []int) (*Packet, error) {
 			p.Channel = byte(i)
 			if p.Channel == ChannelVideo || p.Channel == ChannelAudio {
 				if err = unmarshalHeader(&p.Header, p.Data); err != nil {
-					return nil, err
+					// 整个包已经按长度读出，流的同步没有丢失：连同包一起返回错误，调用方可以丢弃该包后继续
+					return p, err
 				}
 			}
 			return p, nil
 		}
 	}
-	return nil, errors.New("RTP Packet illegal channel")
+	// 通道不匹配（未订阅或未知通道）：同样返回已读出的包，调用方可以丢弃后继续
+	return p, errors.New("RTP Packet illegal channel")
 }
 
 // unmarshalHeader 解析 RTP 头；
